@@ -8,6 +8,8 @@
 package simapi
 
 import (
+	runtime2 "runtime"
+
 	"bytes"
 	"encoding/json"
 	"fmt"
@@ -181,16 +183,19 @@ type Server struct {
 	tick  int64
 	seq   int
 
-	log        []*Call
-	curRec     int
-	recCalls   int
-	curActor   string
-	occ        map[string]int
-	faults     []*Fault
-	EventCount int
-	gcq        []gcTask
-	watchers   map[Res][]*watcher
-	history    map[Res][]histEv
+	log          []*Call
+	curRec       int
+	recCalls     int
+	recGoroutine uint64
+	// CrashOnForeignGoroutine counts crash faults degraded to plain failures (see applyFault).
+	CrashOnForeignGoroutine int
+	curActor                string
+	occ                     map[string]int
+	faults                  []*Fault
+	EventCount              int
+	gcq                     []gcTask
+	watchers                map[Res][]*watcher
+	history                 map[Res][]histEv
 	// KeepHistory makes the server remember watch events so that a watch can start from an
 	// older resourceVersion (needed by real informers: list, then watch from the list's version).
 	KeepHistory bool
@@ -416,6 +421,20 @@ func (s *Server) matchFault(c *Call) *Fault {
 	return nil
 }
 
+func goroutineID() uint64 {
+	var buf [64]byte
+	n := runtime2.Stack(buf[:], false)
+	// "goroutine 123 [running]:"
+	var id uint64
+	for _, ch := range buf[len("goroutine "):n] {
+		if ch < '0' || ch > '9' {
+			break
+		}
+		id = id*10 + uint64(ch-'0')
+	}
+	return id
+}
+
 func faultErr(c *Call, kind string) error {
 	gr := groupResource(c.Res)
 	switch kind {
@@ -437,7 +456,16 @@ func (s *Server) applyFault(c *Call, f *Fault) (runtime.Object, error) {
 	f.Fired = true
 	c.Injected = f.Kind + "/" + f.Mode
 	key := c.NS + "/" + c.Name
-	switch f.Mode {
+	mode := f.Mode
+	if strings.HasPrefix(mode, "crash") && s.recGoroutine != 0 && goroutineID() != s.recGoroutine {
+		// the code under test issued this call from a goroutine of its own: a panic there could not be
+		// caught at the top of the reconcile (it would kill the harness), so the process death is
+		// degraded to the corresponding plain failure
+		s.CrashOnForeignGoroutine++
+		mode = strings.TrimPrefix(mode, "crash-")
+		c.Injected += " (degraded: foreign goroutine)"
+	}
+	switch mode {
 	case "crash-before":
 		c.After = c.Before // nothing was applied
 		c.Err = "the process died before this call (injected)"
@@ -473,7 +501,7 @@ func (s *Server) applyFault(c *Call, f *Fault) (runtime.Object, error) {
 		}
 		return nil, faultErr(c, "conflict")
 	}
-	if f.Mode == "after" {
+	if mode == "after" {
 		s.do(c)
 	}
 	return nil, faultErr(c, f.Kind)
@@ -825,6 +853,7 @@ func (s *Server) BeginReconcile(id int) {
 	s.mu.Lock()
 	s.curRec = id
 	s.recCalls = 0
+	s.recGoroutine = goroutineID()
 	s.mu.Unlock()
 }
 func (s *Server) EndReconcile() {
